@@ -31,21 +31,19 @@ def materializeAll (S : Schema) (fs : List FieldD) (cur : List (Option Nat)) : N
      | Option.none => v) :: materializeAll S fs cur (i + 1) vs
 
 mutual
-/-- `copy.deepcopy(v)` (after the D13 repair): messages are rebuilt through the
-    constructor from their non-PLACEHOLDER fields (deep-copied), then get the original's
-    `_serialized_on_wire` and `_unknown_fields` -/
+/-- `copy.deepcopy(v)` (after the D13 / D45 repairs): a fresh instance receives the
+    non-PLACEHOLDER fields (deep-copied) directly, and the original's
+    `_serialized_on_wire`, `_unknown_fields` and a copy of `_group_current` -/
 def deepCopy (S : Schema) : Val → Val
   | .list xs => .list (deepCopyList S xs)
   | .dict ks vs => .dict ks (deepCopyList S vs)
-  | .msg c sl ow unk _ =>
-    let sl' := deepCopySlots S (fieldsOf S c) sl
-    .msg c sl' ow unk (initCur (fieldsOf S c) sl' 0 (List.replicate (groupsOf S c) Option.none))
+  | .msg c sl ow unk cur => .msg c (deepCopySlots S (fieldsOf S c) sl) ow unk cur
   | v => v
 def deepCopyList (S : Schema) : List Val → List Val
   | [] => []
   | x :: xs => deepCopy S x :: deepCopyList S xs
-/-- constructor arguments of the copy: PLACEHOLDER slots are left out, so they get the
-    dataclass default again (None for optional fields) -/
+/-- the slots of the copy: PLACEHOLDER slots are left out, so they keep the dataclass
+    default of the fresh instance (None for optional fields) -/
 def deepCopySlots (S : Schema) : List FieldD → List Val → List Val
   | f :: fs, v :: vs =>
     (match v with
@@ -56,12 +54,12 @@ end
 
 /-- `copy.copy(m)`: same, but field values are shared, not copied -/
 def shallowCopy (S : Schema) : Val → Val
-  | .msg c sl ow unk _ =>
+  | .msg c sl ow unk cur =>
     let fs := fieldsOf S c
     let sl' := (sl.zip fs).map fun (v, f) => match v with
       | .ph => if f.optional then Val.none else Val.ph
       | v => v
-    .msg c sl' ow unk (initCur fs sl' 0 (List.replicate (groupsOf S c) Option.none))
+    .msg c sl' ow unk cur
   | v => v
 
 inductive Op
